@@ -128,36 +128,73 @@ Definition out_state (w : swrapper) : bytes :=
   out_res (out_opt (fun s => s_name s)) (sw_format w) ++
   (if existsb (fun s => si_desync (s_insp s)) (w_slots w) then lit "|DESYNC" else []).
 
-Inductive source := SrcF (s : fsrc) | SrcI (s : isrc).
+Definition sw_read_on := w_read_on sinsp s_eat s_finish si_complete si_match gen_shape.
+Definition sw_next_on := w_next_on sinsp s_eat s_finish si_complete si_match gen_shape.
+
+(* file-like (with a schedule of transient read() faults), list iterator / generator, scripted iterator
+   (transient errors, StopIteration in the middle of a resumable source) *)
+Inductive source := SrcF (s : ffsrc) | SrcI (s : isrc) | SrcS (s : ssrc).
 Definition out_pos (s : source) : bytes :=
   match s with
-  | SrcF f => out_N (f_pos f)
+  | SrcF f => out_N (f_pos (ff_src f))
   | SrcI i => out_N (N.of_nat (length (i_chunks i)))       (* chunks LEFT in the iterator *)
+  | SrcS i => out_N (N.of_nat (length (ss_items i)))       (* answers LEFT in the script *)
   end.
 
-(* op codes: 0 next, 1 close, 9 read(-1), 10+n read(n) *)
-Definition do_op (w : swrapper) (s : source) (op : N) : swrapper * source * bytes :=
+(* op codes: 0 next, 1 close, 9 read(-1), 10+n read(n)   (2 = a for loop, see do_ops) *)
+Definition do_op (w : swrapper) (s : source) (op : N) : swrapper * source * output :=
   match s with
   | SrcF f =>
-    if op =? 1 then let (w', f') := w_close_f sinsp s_finish w f in (w', SrcF f', out_output OutNone)
-    else if op =? 0 then (w, s, lit "BADOP")
+    if op =? 1 then (finish_all sinsp s_finish w, SrcF (ff_close f), OutNone)
+    else if op =? 0 then (w, s, OutExn OtherError)
     else let size := if op =? 9 then (-1)%Z else (Z.of_N op - 10)%Z in
-         let '(w', f', _, _, o) := sw_read w f size in (w', SrcF f', out_output o)
+         let '(w', f', _, _, o) := sw_read_on ffsrc ff_read w f size in (w', SrcF f', o)
   | SrcI i =>
-    if op =? 1 then let (w', i') := w_close_i sinsp s_finish w i in (w', SrcI i', out_output OutNone)
-    else if op =? 0 then let '(w', i', _, _, o) := sw_next w i in (w', SrcI i', out_output o)
-    else (w, s, lit "BADOP")
+    if op =? 1 then let (w', i') := w_close_i sinsp s_finish w i in (w', SrcI i', OutNone)
+    else if op =? 0 then let '(w', i', _, _, o) := sw_next w i in (w', SrcI i', o)
+    else (w, s, OutExn OtherError)
+  | SrcS i =>
+    if op =? 1 then (finish_all sinsp s_finish w, s, OutNone)           (* no close() on this source *)
+    else if op =? 0 then let '(w', i', _, _, o) := sw_next_on ssrc ss_next w i in (w', SrcS i', o)
+    else (w, s, OutExn OtherError)
   end.
+
+Definition out_entry (o : output) (w : swrapper) (s : source) : bytes :=
+  out_output o ++ lit "@" ++ out_pos s ++ lit "|" ++ out_state w.
+
+(* [for chunk in wrapper]: iter(wrapper) is the wrapper itself; next() until the first exception *)
+Fixpoint do_for (fuel : nat) (w : swrapper) (s : source) : swrapper * source * list bytes :=
+  match fuel with
+  | O => (w, s, [])
+  | S k =>
+    let '(w', s', o) := do_op w s 0 in
+    match o with
+    | OutChunk _ => let '(w2, s2, l) := do_for k w' s' in (w2, s2, out_entry o w' s' :: l)
+    | _ => (w', s', [out_entry o w' s'])
+    end
+  end.
+Definition left_in (s : source) : nat :=
+  match s with SrcF _ => 0 | SrcI i => length (i_chunks i) | SrcS i => length (ss_items i) end.
 
 Fixpoint do_ops (w : swrapper) (s : source) (ops : list N) : list bytes :=
   match ops with
   | [] => []
   | op :: rest =>
-    let '(w', s', o) := do_op w s op in
-    (o ++ lit "@" ++ out_pos s' ++ lit "|" ++ out_state w') :: do_ops w' s' rest
+    if op =? 2 then let '(w', s', l) := do_for (S (left_in s)) w s in l ++ do_ops w' s' rest
+    else let '(w', s', o) := do_op w s op in out_entry o w' s' :: do_ops w' s' rest
   end.
 
-(* args: "sess" kind expected allowed order data lens ops script_0 ... (scripts in the observed order)
+(* scripted iterator: 0 = the next chunk, 1000 = StopIteration (the source resumes afterwards), k = exception k raised once *)
+Fixpoint build_items (chunks : list bytes) (codes : list N) : list (res bytes) :=
+  match codes with
+  | [] => []
+  | c :: t =>
+    if c =? 0 then match chunks with x :: r => Ok x :: build_items r t | [] => build_items [] t end
+    else if c =? 1000 then Exn StopIteration :: build_items chunks t
+    else Exn (nth (N.to_nat c - 1) exn_table OtherError) :: build_items chunks t
+  end.
+
+(* args: "sess" kind expected allowed order data lens ops source-script script_0 ... (scripts in the observed order)
          "detect" order data script_0 ...                                                              *)
 Definition factory_of (order : list str) (scripts : list (list N)) : list (str * sinsp) :=
   map (fun p => (fst p, match index_of (fst p) order 0 with
@@ -175,13 +212,15 @@ Definition run (args : list bytes) : bytes :=
     let data := nth_arg args 5 in
     let lens := nth_arg args 6 in
     let ops := nth_arg args 7 in
-    let scripts := skipn 8 args in
+    let sscript := nth_arg args 8 in
+    let scripts := skipn 9 args in
     let w0 := mk_wrapper sinsp (factory_of order scripts) expected allowed in
     match pick_slots (w_slots w0) order with
     | Some ss =>
       if negb (Nat.eqb (length ss) (length (w_slots w0)) && nodupb order) then lit "BADSET" else
       let w := with_slots sinsp w0 ss in
-      let s := if is_op "f" kind then SrcF {| f_data := data; f_pos := 0; f_closed := false |}
+      let s := if is_op "f" kind then SrcF {| ff_src := {| f_data := data; f_pos := 0; f_closed := false |}; ff_faults := map exn_of_code sscript |}
+               else if is_op "r" kind then SrcS {| ss_items := build_items (split_lens data lens) sscript |}
                else SrcI {| i_chunks := split_lens data lens; i_has_close := is_op "g" kind |} in
       out_state w ++ lit ";" ++ join (lit ";") (do_ops w s ops)
     | None => lit "BADSET"
